@@ -51,6 +51,13 @@ func IdentityOf(ref *dtpb.Reference) (*resource.Identity, error) {
 
 	// Absolute and Relative URIs
 	if uri := ref.GetUri(); uri != nil {
+		// "#id" is the URI form of a fragment reference: the same contained resource as the fragment member names
+		if frag, ok := strings.CutPrefix(uri.GetValue(), "#"); ok && frag != "" {
+			if refType := ref.GetType(); refType != nil {
+				return resource.NewIdentity(refType.GetValue(), frag, "")
+			}
+			return nil, ErrFragmentMissingType
+		}
 		return IdentityFromURL(uri.GetValue())
 	}
 	return identityOfStrong(ref)
